@@ -138,6 +138,9 @@ def set (m : HMap) (k : Bytes) (e : Option Nat) : HMap :=
 
 end HMap
 
+/-- a string-keyed map whose contents do not matter to the translated code (Params, context data) -/
+abbrev KV := List (Bytes × Bytes)
+
 /-- what `Router.QuickMatch` calls, over an abstract router state `σ` (the route cache may change when a
     dynamic route is matched), abstract routes `ρ` and parameter maps `π` -/
 structure QMEnv (σ ρ π : Type) where
